@@ -197,6 +197,8 @@ def rule_keys_table(ctx):
 
 
 def run(ctx):
+    from ..rules import extra as _X3
+    _X3.rule_total_processing_order(ctx)
     rule_F9b(ctx)
     rule_ids(ctx)
     rule_importer_use(ctx)
